@@ -9,6 +9,9 @@ def _eq(a, b):
     a, b = np.asarray(a), np.asarray(b)
     if a.shape != b.shape:
         return False
+    if a.dtype.kind in "OUS" or b.dtype.kind in "OUS":
+        # not numbers (a frame with a wrong dtype was evaluated without complaint): element-wise identity
+        return a.tolist() == b.tolist() or bool(np.array_equal(a, b))
     if a.dtype.kind in "fc" or b.dtype.kind in "fc":
         return bool(np.array_equal(a.astype(float), b.astype(float), equal_nan=True))
     return bool(np.array_equal(a, b))
